@@ -61,6 +61,11 @@ CHECKS = {
         technique="translation validation, TEAL vs TEAL (SymAVM/z3 equivalence of the program with and without each annotation + instruction-stream comparison by the independent front-end) and z3 string/regex obligations over kernels translated from the current source (CommentExpr guard, TealLabel.assemble, label construction)",
         text="(a) For base programs (control skeletons, routine programs) and each insertion of one annotation - Comment at every top-level statement or around the whole program, Assert comment, Pragma with a satisfied constraint, Nonce, subroutine names (also all routines sharing one name) - with adversarial texts plus texts taken from solver models, z3 shows behavioural equivalence for all inputs and the front-end shows the instruction streams are identical up to comment lines, label spellings and the Nonce push-and-pop. (b) With the text as a z3 string (length <= 8/12, any characters): a text accepted by CommentExpr's guard contributes exactly one comment line; everything TealLabel.assemble writes in front of a label is comment or blank lines whatever the subroutine name; labels of distinct routines are distinct and are label tokens. The kernels are re-translated from /repo's source on every run; unknown syntax is a harness error.",
         note="Trusted: the line grammar model (comment = optional blanks, //, no line feed), the abstraction of str.splitlines (pieces contain no line break), z3 sequences/regex. Bounds: text length; the enumerated base programs and insertion points."),
+    "C19": dict(
+        category="model_checking", design_ref="DESIGN.md 3/C19",
+        technique="exhaustive enumeration of ordered type pairs over a bounded universe; per accepted pair an SMT query (z3 bit-vectors) for a value whose ARC-4 encodings at the two types differ; models replayed with algosdk.abi",
+        text="For every ordered pair (A,B) of the universe (leaves, byte/uint8, address/byte[32]/StaticBytes, string/byte[]/uint8[], static vs dynamic arrays of static and dynamic elements, tuples of different arities, named vs plain tuples, nested combinations, reference and transaction types) and each site at which PyTeal decides whether an A may be used as a B - type_spec_is_assignable_to, an ABI-typed subroutine parameter, B.set(value of A) - acceptance creates the obligation that no value of A (all leaf values, listed dynamic lengths) encodes differently at B when read by position; z3 decides it, structural mismatches (different arity, length prefix) are immediate counterexamples; every counterexample is replayed with algosdk (encode at A, decode at B, compare).",
+        note="Trusted: verif/arc4/model.py (validated against algosdk), z3. The pair space is enumerated exhaustively for the stated universe; dynamic lengths take the listed vectors. The converse (equal encoding => assignable) is not demanded."),
 }
 
 NOT_APPLICABLE = {
